@@ -72,6 +72,9 @@ func main() {
 	if aliasAll.N > 0 {
 		meta.GoOnly = append(meta.GoOnly, aliasAll)
 	}
+	if viewAll.N > 0 {
+		meta.GoOnly = append(meta.GoOnly, viewAll)
+	}
 	if sizeAll.N > 0 {
 		meta.GoOnly = append(meta.GoOnly, sizeAll)
 	}
